@@ -13,7 +13,7 @@ func init() { registry["C15"] = propC15 }
 func propC15() *Property {
 	return &Property{
 		ID:          "C15",
-		Explanation: "Structural clauses of the rendering property. Decided: (R1) in every markup implementation the text returned by the function that Render(width) calls is, up to trimming, the result of ansi.Wrap / ansi.DumbWrap with exactly the requested width — the three implementations of one interface must agree on this final wrap; (R2) the render cache is consulted only for an equal width and is overwritten together with its width: Render returns the cached text only on the cachedWidth == width edge, every other return stores the freshly rendered text and the width it was rendered at, constructors initialise the pair consistently, nothing else writes the pair; (R3) rendering is a function of content and width: the render functions (transitively) write no field, no package-level variable and nothing reachable from their inputs, and read no package-level state other than the immutable configuration and compiled regexps. NOT decided: the numeric bound itself (that ansi.Wrap honours its width is C13, not applicable) and the content of the rendering.",
+		Explanation: "Structural clauses of the rendering property. Decided: (R1) in every markup implementation the text returned by the function that Render(width) calls is, up to trimming, the result of ansi.Wrap / ansi.DumbWrap with exactly the requested width — the three implementations of one interface must agree on this final wrap; (R2) the render cache is consulted only for an equal width and is overwritten together with its width: Render returns the cached text only on the cachedWidth == width edge, every other return stores the freshly rendered text and the width it was rendered at, constructors initialise the pair consistently, nothing else writes the pair; (R3) rendering is a function of content and width: the render functions (transitively) write no field, no package-level variable and nothing reachable from their inputs, and read no package-level state other than the immutable configuration and compiled regexps. That ansi.Wrap and ansi.DumbWrap honour their width is decided under C13.R1/R2. NOT decided: the content of the rendering.",
 		Assumptions: []string{"config.Parsed is immutable after start-up (C08.R6)"},
 		Rules: []Rule{
 			{ID: "C15.R1", Title: "final wrap with the requested width in every renderer", Floor: 3, Run: c15R1},
